@@ -5,7 +5,7 @@ from .. import datadoc as dd
 
 ID = "C02"
 MODULE = "LasioProofs.Props.C02"
-EXTRA_MODULES = ["LasioProofs.Props.C02Tab"]
+EXTRA_MODULES = ["LasioProofs.Props.C02Tab", "LasioProofs.Props.C02File"]
 RULE = ("(0) the inputs of the fixed findings first (21 leading comment/blank lines; ~A followed by a section; 1 row x 1 column; inner ~A "
         "ending in a blank line); (a) PlainData documents — WRAP=NO, default delimiter, r>=1 rows of c>=1 plain decimal tokens in many "
         "spellings, blanks/TABs with leading/trailing padding, blank and '#' comment lines at every position incl. first/last line of "
@@ -338,7 +338,7 @@ LEVEL_TEXT = ("Machine-checked Lean 4 theorems about an executable model of the 
               "of TABs (C02_*_tab over TabPlainData, Props/C02Tab.lean), with the counter-example that a blank is no separator there "
               "(C02_tab_separators_needed: the engines differ). Tie: differential comparison of the compiled model with the real read for each engine "
               "including the engine trace, and the property's oracle on the real code.")
-LEVEL_NOTE = ("Binary64 parsing is a parameter of the model (token->float table from Python's float()); genfromtxt is specified, not derived "
+LEVEL_NOTE = ("WHOLE FILE (Props/C02File.lean): C02_file / C02_file_plain / C02_file_tab — readModel with the numpy engine = readModel with the normal engine for every well-formed document all of whose data sections are plain (header sections, ~Other text and the curves of every data section, both null policies, wherever the data sections sit; unreadable files give the same error), C02_file_readFull / _records / _numpy_path / _fallback (which engine is recorded). Binary64 parsing is a parameter of the model (token->float table from Python's float()); genfromtxt is specified, not derived "
               "from numpy's source. Header sections are equal trivially in the model (the engine option is only read by the data part); the "
               "oracle checks it on the real objects. Silent fallback inside the domain exists (blank/comment line in an inner ~A): proved and "
               "predicted by the model, it does not change the curves.")
